@@ -95,7 +95,7 @@ theorem copyLoop_length (adv : Adv) (src : PSrc) (elSize : Nat) (n : Nat) :
 was range-checked against a pointer value inside the sandbox -/
 theorem rangeHelper_val (adv : Adv) (src : PSrc) (count elSize : Nat) (s : St) (bs : List Nat)
     (h : (run adv (rangeHelper src count elSize) s).1 = .val bs) :
-    bs.length = count * elSize ∧ count ≠ 0 ∧ count * elSize ≤ rsize := by
+    bs.length = count * elSize ∧ count ≠ 0 ∧ ∃ p, p ≠ 0 ∧ p + count * elSize ≤ rsize := by
   simp only [rangeHelper, verifyRange, run_bind] at h
   by_cases hc : count = 0
   · simp [hc, run_pure, run_bind] at h
@@ -114,17 +114,17 @@ theorem rangeHelper_val (adv : Adv) (src : PSrc) (count elSize : Nat) (s : St) (
           | some l =>
             simp only [hl, run_pure, Out.val.injEq] at h
             subst h
-            refine ⟨copyLoop_length adv src elSize count 0 _ l hl, hc, ?_⟩
-            simp only [rangeOk, decide_eq_true_eq] at hr
-            omega
+            refine ⟨copyLoop_length adv src elSize count 0 _ l hl, hc, (run adv (fetch src) s).1, hp, ?_⟩
+            simpa [rangeOk] using hr
       · simp [hr, run_pure] at h
 
 /-- **Strings** (`unique_ptr<char[]>` verifier): for every adversary, a delivered string has a NUL as
 the last byte of its own buffer (so it is terminated inside the buffer), and the buffer is exactly
-as long as the extent that was range-checked (at most the region). -/
+as long as an extent `[p, p + length)` that was range-checked (never longer than the checked length). -/
 theorem C09_string (adv : Adv) (src : PSrc) (s : St) (bs : List Nat)
     (h : (run adv (cavStrU src) s).1 = .val bs) :
-    bs ≠ [] ∧ bs.getLast? = some 0 ∧ (∃ i, i < bs.length ∧ bs[i]? = some 0) ∧ bs.length ≤ rsize := by
+    bs ≠ [] ∧ bs.getLast? = some 0 ∧ (∃ i, i < bs.length ∧ bs[i]? = some 0) ∧
+    (∃ p, p ≠ 0 ∧ p + bs.length ≤ rsize) := by
   simp only [cavStrU, run_bind] at h
   by_cases hp : (run adv (fetch src) s).1 = 0
   · simp [hp, run_pure] at h
@@ -137,12 +137,12 @@ theorem C09_string (adv : Adv) (src : PSrc) (s : St) (bs : List Nat)
           (run adv (strlenFrom (run adv (fetch src) s).1 rsize 0) (run adv (fetch src) s).2).2).1 with
       | val cs =>
         simp only [hr, run_pure, Out.val.injEq] at h
-        obtain ⟨h1, _, h3⟩ := rangeHelper_val adv src (len + 1) 1 _ cs hr
+        obtain ⟨h1, _, p, hp0, h3⟩ := rangeHelper_val adv src (len + 1) 1 _ cs hr
         subst h
         have hlen : (setLast cs 0).length = len + 1 := by
           simp only [setLast, List.length_append, List.length_dropLast, List.length_cons, List.length_nil]
           omega
-        refine ⟨?_, ?_, ⟨len, by omega, ?_⟩, by omega⟩
+        refine ⟨?_, ?_, ⟨len, by omega, ?_⟩, ⟨p, hp0, by omega⟩⟩
         · intro hnil; rw [hnil] at hlen; simp at hlen
         · simp [setLast]
         · simp only [setLast]
@@ -170,10 +170,10 @@ theorem verifyRange_some (adv : Adv) (src : PSrc) (count elSize : Nat) (s : St) 
         simpa [rangeOk] using hr
       · simp [hr, run_pure] at h
 
-/-- **Strings** (`std::string` verifier): the delivered string is never longer than the length that
-was range-checked, for every adversary. -/
+/-- **Strings** (`std::string` verifier): the delivered string plus its terminator is exactly an extent
+`[q, q + length + 1)` that was range-checked, for every adversary -- never longer than the checked length. -/
 theorem C09_string_std (adv : Adv) (src : PSrc) (s : St) (bs : List Nat)
-    (h : (run adv (cavStrS src) s).1 = .val bs) : bs.length + 1 ≤ rsize ∨ bs = [] := by
+    (h : (run adv (cavStrS src) s).1 = .val bs) : (∃ q, q ≠ 0 ∧ q + (bs.length + 1) ≤ rsize) ∨ bs = [] := by
   simp only [cavStrS, run_bind] at h
   by_cases hp : (run adv (fetch src) s).1 = 0
   · simp only [hp, if_true, run_pure, Out.val.injEq] at h; exact Or.inr h.symm
@@ -193,13 +193,15 @@ theorem C09_string_std (adv : Adv) (src : PSrc) (s : St) (bs : List Nat)
           subst h
           left
           have := verifyRange_some adv src (len + 1) 1 _ (q' + 1) hv (by omega)
+          refine ⟨q' + 1, by omega, ?_⟩
           simp only [readBytes_length]
           omega
 
 /-- **Ranges**: a delivered buffer holds exactly `count` elements -- never sized from a second look
 at the sandbox -- and `count` elements fit the sandbox. -/
 theorem C09_range (adv : Adv) (src : PSrc) (count elSize : Nat) (s : St) (bs : List Nat)
-    (h : (run adv (cavRange src count elSize) s).1 = .val bs) : bs.length = count * elSize ∧ count * elSize ≤ rsize := by
+    (h : (run adv (cavRange src count elSize) s).1 = .val bs) :
+    bs.length = count * elSize ∧ ∃ p, p ≠ 0 ∧ p + count * elSize ≤ rsize := by
   have := rangeHelper_val adv src count elSize s bs h
   exact ⟨this.1, this.2.2⟩
 
